@@ -190,6 +190,7 @@ func (c *Conn) processEncryptedClientHello(h *clientHello, isRetry bool) (*clien
 		return nil, nil
 	}
 	var innerBytes []byte
+	var opened bool
 	for _, key := range c.keys {
 		cfg, err := Config(key.Config).Spec()
 		if err != nil || cfg.ID != h.echExt.ConfigID || slices.IndexFunc(cfg.CipherSuites, func(cs CipherSuite) bool {
@@ -220,11 +221,12 @@ func (c *Conn) processEncryptedClientHello(h *clientHello, isRetry bool) (*clien
 		if err != nil {
 			continue
 		}
+		opened = true
 		if string(cfg.PublicName) != h.ServerName {
 			return nil, ErrIllegalParameter
 		}
 	}
-	if innerBytes == nil {
+	if !opened {
 		// Section 7.1.1, regarding a retried ClientHello:
 		// If decryption fails, the client-facing server MUST abort the
 		// handshake with a "decrypt_error" alert.
